@@ -86,6 +86,8 @@ FN_ROLES = {
     "checked_naive_local": ("Result<NaiveDateTime, Error>", "&DateTime<Z>"),
     "deserialize_iterator": ("DeserializerIterator<T>", "&mut DeserializationContext"),
 }
+# canonical free functions that may have become an associated function of some type (`Iter::open(ctx)`)
+ANY_OWNER = ("deserialize_iterator",)
 
 
 def _sig(b):
@@ -110,7 +112,7 @@ def discover_fns(crate):
             if b.key in walk.ANCHORS or b.key in FN_ROLES:
                 continue
             bo = b.key.rsplit("::", 1)[0] if "::" in b.key else None
-            if bo != owner or _sig(b) != sig:
+            if (bo != owner and key not in ANY_OWNER) or _sig(b) != sig:
                 continue
             cands.append(b)
         if len(cands) == 1 and cands[0].defn not in taken:
@@ -139,6 +141,19 @@ def _rename_defs(obj, m):
                 _rename_defs(v, m)
 
 
+def _free_callees(obj, freed):
+    if isinstance(obj, dict):
+        if obj.get("def") in freed and "impl_self" in obj:
+            obj["impl_self"] = None
+        for v in obj.values():
+            if isinstance(v, (dict, list)):
+                _free_callees(v, freed)
+    elif isinstance(obj, list):
+        for v in obj:
+            if isinstance(v, (dict, list)):
+                _free_callees(v, freed)
+
+
 def _ren_str(v, m):
     for old, new in m.items():
         if v == old or v.startswith(old + "::{"):
@@ -152,24 +167,27 @@ def canonicalise_fns(crate):
     if not fr:
         return
     from .facts import body_key
-    m = {old: old[:old.rindex("::") + 2] + name for old, name in fr.items()}
+    m = {}
+    freed = set()
+    for old, name in fr.items():
+        b = crate.bodies[old]
+        if name in ANY_OWNER and b.impl:
+            # associated function standing in for a documented free function: re-home it in the module of its type
+            ty_path = b.impl["self"].get("path") or ""
+            mod = ty_path.rsplit("::", 1)[0] if "::" in ty_path else crate.name
+            m[old] = mod + "::" + name
+            freed.add(m[old])
+        else:
+            m[old] = old[:old.rindex("::") + 2] + name
     for b in crate.bodies.values():
         _rename_defs(b.raw, m)
     _rename_defs(crate.items, m)
-    bodies = {}
-    for b in crate.bodies.values():
-        b.defn = b.raw["def"]
-        b.root = b.raw["root"]
-        b.key = body_key(b.raw)
-        bodies[b.defn] = b
-    crate.bodies = bodies
-    for b in bodies.values():
-        root = b.raw.get("root")
-        if root and root != b.defn and root in bodies and b.defn.startswith(root):
-            b.key = bodies[root].key + b.defn[len(root):]
-    crate.by_key = {}
-    for b in bodies.values():
-        crate.by_key.setdefault(b.key, []).append(b)
+    if freed:
+        for b in crate.bodies.values():
+            if b.raw["def"] in freed:
+                b.raw["impl"] = None
+            _free_callees(b.raw["blocks"], freed)
+    _rebuild(crate)
 
 
 # Types the rule tables name by full path.  Moving a type into another (sub)module of the same crate is behaviour-preserving:
@@ -183,6 +201,85 @@ CANON_ADTS = (
     "desert_core::binary_input::SliceInput", "desert_core::binary_input::OwnedInput",
     "desert_core::binary_output::SizeCalculator", "desert_core::adt::FieldPosition", "desert_core::StringId", "desert_core::RefId",
 )
+
+
+# Non-public enums the rule tables name together with their variants.  A renamed enum is re-identified by the shape of its
+# variants, and each variant by its own shape; field names inside a variant by type.
+def _fty(f):
+    return short(f["ty"].get("s", ""))
+
+
+def _has(v, rx):
+    return any(re.search(rx, _fty(f)) for f in v["fields"])
+
+
+ENUM_ROLES = {
+    "desert_core::deserializer::DeserializerIterator": {
+        "is": lambda a: a["kind"] == "Enum" and "Restricted" in str(a.get("vis")) and len(a["variants"]) == 4 and
+        sum(1 for v in a["variants"] if _has(v, r"^&mut DeserializationContext")) == 2,
+        "variants": [
+            ("KnownSize", lambda v: _has(v, r"^&mut DeserializationContext") and _has(v, r"^usize$"),
+             [("context", r"^&mut DeserializationContext"), ("remaining", r"^usize$")]),
+            ("UnknownSize", lambda v: _has(v, r"^&mut DeserializationContext") and not _has(v, r"^usize$"),
+             [("context", r"^&mut DeserializationContext")]),
+            ("InputEndedUnexpectedly", lambda v: not v["fields"], []),
+            ("InvalidLength", lambda v: len(v["fields"]) == 1 and _has(v, r"^i32$"), []),
+        ],
+    },
+}
+
+
+def discover_enums(crate):
+    """-> (type renames {old path: canonical path}, name renames {old variant/field name: canonical name})"""
+    have = {a["path"]: a for a in crate.items["adts"]}
+    types, names = {}, {}
+    all_names = {}
+    for a in crate.items["adts"]:
+        for v in a["variants"]:
+            all_names.setdefault(v["name"], set()).add(a["path"])
+            for f in v["fields"]:
+                all_names.setdefault(f["name"], set()).add(a["path"])
+    for want, spec in ENUM_ROLES.items():
+        if not want.startswith(crate.name + "::"):
+            continue
+        adt = have.get(want)
+        if adt is None:
+            cands = [a for a in crate.items["adts"] if a["path"].startswith(crate.name + "::") and spec["is"](a)]
+            if len(cands) != 1:
+                continue
+            adt = cands[0]
+            types[adt["path"]] = want
+        for canonical, pred, fields in spec["variants"]:
+            vs = [v for v in adt["variants"] if pred(v)]
+            if len(vs) != 1:
+                continue
+            v = vs[0]
+            if v["name"] != canonical and all_names.get(v["name"]) == {adt["path"]}:
+                names[v["name"]] = canonical
+            for fcanon, rx in fields:
+                fs = [f for f in v["fields"] if re.search(rx, _fty(f))]
+                if len(fs) == 1 and fs[0]["name"] != fcanon and all_names.get(fs[0]["name"]) == {adt["path"]}:
+                    names[fs[0]["name"]] = fcanon
+    return types, names
+
+
+def _rename_exact(obj, m, keys=("variant", "name")):
+    """rewrite strings that are exactly a renamed variant / field name (values of `variant` / `name` keys and the
+    [discriminant, name] pairs of discriminant reads)"""
+    if isinstance(obj, dict):
+        for k, v in obj.items():
+            if isinstance(v, str):
+                if k in keys and v in m:
+                    obj[k] = m[v]
+            elif isinstance(v, (dict, list)):
+                _rename_exact(v, m, keys)
+    elif isinstance(obj, list):
+        for i, v in enumerate(obj):
+            if isinstance(v, str):
+                if v in m and len(obj) == 2 and i == 1:
+                    obj[i] = m[v]
+            elif isinstance(v, (dict, list)):
+                _rename_exact(v, m, keys)
 
 
 def discover_moves(crate):
@@ -221,7 +318,14 @@ def _replace_all(obj, rx, m):
 
 def canonicalise_moves(crate):
     mv = discover_moves(crate)
+    etypes, enames = discover_enums(crate)
+    mv.update(etypes)
     crate.adt_moves = mv
+    crate.enum_renames = enames
+    if enames:
+        for b in crate.bodies.values():
+            _rename_exact(b.raw, enames)
+        _rename_exact(crate.items, enames)
     if not mv:
         return
     rx = re.compile("(?<![A-Za-z0-9_:])(?:%s)(?![A-Za-z0-9_])" % "|".join(re.escape(k) for k in sorted(mv, key=len, reverse=True)))
